@@ -43,7 +43,6 @@ This module also hosts the wavefunction model shared with the Molekel writer and
 
 from __future__ import annotations
 
-import copy
 import re
 
 import numpy as np
@@ -273,17 +272,18 @@ def shell_functions(wf):
     return out
 
 
-def build_wf(spec, seed, fmt_con, fmt_coef, fmt_occ, fmt_ene, round_centers, atom_order=None):
+def build_wf(spec, seed, fmt_con, fmt_coef, fmt_occ, fmt_ene, round_centers, blocks=None):
     """spec (from st_wf) -> wavefunction model; every number already rounded as printed.
 
     ``fmt_*`` are callables value -> printed text; ``round_centers`` maps raw centres (bohr) to
-    (native coordinates as printed, centres in bohr); ``atom_order`` is the order in which the
-    atoms list their shells in the file (the basis functions follow that order).
+    (native coordinates as printed, centres in bohr); ``blocks`` = [(iatom, None | [shell positions])] is the
+    order in which the file lists the shells of the atoms (the basis functions follow that order;
+    default: one block per atom in sequence).
     """
     best = None
     for attempt in range(8):
         rng = np.random.Generator(np.random.PCG64([int(seed), 17, attempt]))
-        wf = _build_wf_once(spec, rng, fmt_con, fmt_coef, fmt_occ, fmt_ene, round_centers, atom_order)
+        wf = _build_wf_once(spec, rng, fmt_con, fmt_coef, fmt_occ, fmt_ene, round_centers, blocks)
         if best is None or wf["condition"] > best["condition"]:
             best = wf
         if wf["condition"] > 2e-5:
@@ -291,7 +291,7 @@ def build_wf(spec, seed, fmt_con, fmt_coef, fmt_occ, fmt_ene, round_centers, ato
     return best
 
 
-def _build_wf_once(spec, rng, fmt_con, fmt_coef, fmt_occ, fmt_ene, round_centers, atom_order):
+def _build_wf_once(spec, rng, fmt_con, fmt_coef, fmt_occ, fmt_ene, round_centers, blocks):
     pure_d, pure_f, pure_g = (bool(x) for x in spec["pure"])
     kind_of = {0: "c", 1: "c", 2: "p" if pure_d else "c", 3: "p" if pure_f else "c",
                4: "p" if pure_g else "c", 5: "p"}
@@ -299,10 +299,15 @@ def _build_wf_once(spec, rng, fmt_con, fmt_coef, fmt_occ, fmt_ene, round_centers
     native, centers = round_centers(_place_atoms(rng, natom, "far" if spec["sparse"] else spec["geom"]))
     shells = []
     nbasis = 0
-    for iatom in (range(natom) if atom_order is None else atom_order):
+    if blocks is None:
+        blocks = [(iatom, None) for iatom in range(natom)]
+    all_ladders = [_exponent_ladders(rng, shells_of_atom) for shells_of_atom in spec["atoms"]]
+    for iblock, (iatom, positions) in enumerate(blocks):
         shells_of_atom = spec["atoms"][iatom]
-        ladders = _exponent_ladders(rng, shells_of_atom)
+        ladders = all_ladders[iatom]
         for ish, (lcode, nprim) in enumerate(shells_of_atom):
+            if positions is not None and ish not in positions:
+                continue
             lcode = int(lcode)
             if lcode == 5 and not pure_g:
                 lcode = 4  # h functions exist only together with pure g ([9G])
@@ -320,7 +325,8 @@ def _build_wf_once(spec, rng, fmt_con, fmt_coef, fmt_occ, fmt_ene, round_centers
                 col = raw[:, icon] / contraction_norm(exps, raw[:, icon], ell)
                 cols.append([shown(fmt_con(c)) for c in col])
             shells.append(
-                {"iatom": iatom, "ls": ls, "kinds": kinds, "exponents": exps, "coeffs": np.array(cols).T}
+                {"iatom": iatom, "block": iblock, "ls": ls, "kinds": kinds, "exponents": exps,
+                 "coeffs": np.array(cols).T}
             )
     wf = {"centers": centers, "native": native, "shells": shells, "natom": natom}
     olp = O.overlap(plain_basis(wf))
@@ -471,7 +477,7 @@ def st_model(big):
             "occ_text": st.sampled_from(["real", "real", "short"]),
             "omit_zeros": st.sampled_from([False, False, True]),
             "order": st.sampled_from(["normal", "normal", "normal", "normal", "normal", "gto_first"]),
-            "gto_atom_order": st.sampled_from(["sequential", "sequential", "sequential", "permuted"]),
+            "gto_atom_order": st.sampled_from(["sequential"] * 4 + ["permuted", "split"]),
             "empty_block": st.sampled_from([False, False, True]),
             "spin_order": st.sampled_from(["blocks", "blocks", "blocks", "interleaved"]),
             "extra_sections": st.booleans(),
@@ -507,11 +513,20 @@ def build(spec):
     order = list(range(natom))
     if spec["gto_atom_order"] == "permuted":
         order = [int(i) for i in rng.permutation(natom)]
+    blocks = [(iatom, None) for iatom in order]
+    if spec["gto_atom_order"] == "split" and natom >= 2:
+        # the shells of one atom in two blocks, with the blocks of the other atoms in between
+        rich = [i for i in order if len(spec["wf"]["atoms"][i]) >= 2]
+        if rich:
+            nsh = len(spec["wf"]["atoms"][rich[0]])
+            first = list(range(nsh // 2))
+            blocks = ([(rich[0], first)] + [(i, None) for i in order if i != rich[0]]
+                      + [(rich[0], [k for k in range(nsh) if k not in first])])
     wf = build_wf(
         spec["wf"], spec["seed"],
         lambda x: fmt_real(x, spec["numstyle"]),
         lambda x: fmt_mo(x, spec["mo_style"]),
-        _fmt_occ, _fmt_ene, round_centers, order,
+        _fmt_occ, _fmt_ene, round_centers, blocks,
     )
     atnums = np.minimum(C.atnums(rng, natom, spec["wf"]["elements"]), 103)
     corenums = atnums.astype(float)
@@ -528,7 +543,7 @@ def build(spec):
         "title": spec["title"], "title_text": spec["title_text"], "flags_pos": spec["flags_pos"],
         "flag_style": spec["flag_style"], "numstyle": spec["numstyle"], "coord_style": cstyle,
         "mo_keys": spec["mo_keys"], "mo_style": spec["mo_style"], "occ_text": spec["occ_text"],
-        "omit_zeros": omit, "order": spec["order"], "gto_order": order,
+        "omit_zeros": omit, "order": spec["order"], "gto_blocks": [b[0] for b in blocks],
         "empty_block": bool(spec["empty_block"]), "spin_order": spec["spin_order"],
         "extra_sections": bool(spec["extra_sections"]), "gto_end_blank": spec["gto_end_blank"],
         "boost": False,
@@ -577,12 +592,12 @@ def _atoms_lines(model):
 def _gto_lines(model):
     wf = model["wf"]
     lines = ["[GTO]"]
-    used = {sh["iatom"] for sh in wf["shells"]}
-    blocks = [i for i in model["gto_order"] if i in used or model["empty_block"]]
-    for iatom in blocks:
+    for iblock, iatom in enumerate(model["gto_blocks"]):
+        if not (model["empty_block"] or any(sh["block"] == iblock for sh in wf["shells"])):
+            continue
         lines.append(f"{iatom + 1:5d} 0")
         for sh in wf["shells"]:
-            if sh["iatom"] != iatom:
+            if sh["block"] != iblock:
                 continue
             label = "sp" if len(sh["ls"]) == 2 else LCHARS[sh["ls"][0]]
             lines.append(f" {label:<2s} {len(sh['exponents']):4d} 1.00")
@@ -690,7 +705,10 @@ def labels(spec, model):
         out.append("zero_coefficients_omitted")
     if model["order"] == "gto_first":
         out.append("gto_before_atoms")
-    if model["gto_order"] != sorted(model["gto_order"]):
+    present = [b for k, b in enumerate(model["gto_blocks"]) if any(sh["block"] == k for sh in model["wf"]["shells"])]
+    if len(set(present)) < len(present):
+        out.append("gto_atom_in_two_blocks")
+    elif present != sorted(present):
         out.append("gto_atom_order_permuted")
     if model["empty_block"] and "atom_without_shells" in out:
         out.append("empty_gto_block")
@@ -712,6 +730,7 @@ def core(spec, model):
     """False for legal variants that neither the fixtures nor iodata's documentation cover."""
     labs = set(labels(spec, model))
     extended = {"sp_shell", "zero_coefficients_omitted", "gto_before_atoms", "gto_atom_order_permuted",
+                "gto_atom_in_two_blocks",
                 "empty_gto_block", "spins_interleaved"}
     return not (labs & extended)
 
@@ -816,10 +835,10 @@ def selfcheck(model, parsed):
             if ell >= 2 and (kind == "p") != (ell in pure):
                 out.append(f"flag for l={ell}")
     want_blocks = []
-    used = {sh["iatom"] for sh in wf["shells"]}
-    for iatom in model["gto_order"]:
-        if iatom in used or model["empty_block"]:
-            want_blocks.append((iatom + 1, [sh for sh in wf["shells"] if sh["iatom"] == iatom]))
+    for iblock, iatom in enumerate(model["gto_blocks"]):
+        members = [sh for sh in wf["shells"] if sh["block"] == iblock]
+        if members or model["empty_block"]:
+            want_blocks.append((iatom + 1, members))
     got_blocks = parsed.get("gto", [])
     if [b[0] for b in got_blocks] != [b[0] for b in want_blocks]:
         out.append("gto blocks")
@@ -869,8 +888,3 @@ def selfcheck(model, parsed):
     if (pos["gto"] < pos["atoms"]) != (model["order"] == "gto_first"):
         out.append("section order")
     return out
-
-
-def standard_copy(model):
-    """Deep copy used by vendors.py to re-encode the numbers of a model."""
-    return copy.deepcopy(model)
